@@ -12,7 +12,7 @@ import (
 )
 
 
-var keys = []string{"h1", "h2", "H1", "str", "lst"} // str / lst are seeded with other types
+var keys = []string{"h1", "h2", "H1", "vol", "str", "lst"} // vol: hash with a deadline; str / lst: other types
 var fields = []string{"", "f", "F", "1", "\x00\xffb", "f\r\ng"}
 
 func key(t *rapid.T) string   { return rapid.SampledFrom(keys).Draw(t, "key") }
@@ -105,7 +105,7 @@ func genOp(t *rapid.T) kit.Cmd {
 func GenProgram(t *rapid.T) prog.Program {
 	p := prog.Program{ShardNum: rapid.SampledFrom([]int{1, 16}).Draw(t, "shards")}
 	if rapid.IntRange(0, 2).Draw(t, "prologue") > 0 {
-		p.Ops = append(p.Ops, kit.MkCmd("SET", "str", "v"), kit.MkCmd("RPUSH", "lst", "x"))
+		p.Ops = append(p.Ops, kit.MkCmd("SET", "str", "v"), kit.MkCmd("RPUSH", "lst", "x"), kit.MkCmd("HSET", "vol", "f", "1"), kit.MkCmd("EXPIRE", "vol", "5000"))
 	}
 	n := rapid.SampledFrom([]int{1, 3, 6, 12, 25, 40}).Draw(t, "len")
 	for i := 0; i < n; i++ {
